@@ -228,6 +228,60 @@ def aggregates(prog, adt_pat, variant=None, crates=None):
     return out
 
 
+def comes_from_call(f, operand, call):
+    """True if the operand is the result of `call`, possibly through plain moves/copies/casts of single-definition locals."""
+    pl = op_place(operand)
+    seen = set()
+    while pl is not None and pl['l'] not in seen:
+        seen.add(pl['l'])
+        if call.dest is not None and pl['l'] == call.dest['l']:
+            return True
+        ds = [d for d in f.defs_of(pl['l']) if d[0] in ('assign', 'call')]
+        if len(ds) != 1:
+            return False
+        if ds[0][0] == 'call':
+            return ds[0][3] is call
+        pl = op_place(ds[0][3].get('a')) if ds[0][3]['k'] in ('use', 'cast') else None
+    return False
+
+
+def closure_of_arg(prog, f, operand):
+    """the closure function an operand denotes (the operand is, through plain moves, a closure aggregate), or None"""
+    pl = op_place(operand)
+    seen = set()
+    while pl is not None and pl['l'] not in seen:
+        seen.add(pl['l'])
+        ds = [d for d in f.defs_of(pl['l']) if d[0] == 'assign']
+        if len(ds) != 1:
+            return None
+        rv = ds[0][3]
+        if rv['k'] == 'agg' and rv.get('ak') == 'closure':
+            return prog.fns.get(rv.get('def'))
+        if rv['k'] in ('ref', 'rawptr'):
+            pl = rv['p']
+            continue
+        pl = op_place(rv.get('a')) if rv['k'] in ('use', 'cast') else None
+    return None
+
+
+def closures_of(prog, f):
+    return [g for g in prog.fns.values() if g.path.startswith(f.path + '::{closure#')]
+
+
+def body_calls(prog, f, names):
+    """Calls named in `names` made by f: directly, or inside a closure that f hands to an iterator adapter (for_each, try_for_each, any, all,
+    map ...). For the second kind the adapter call in f stands for the calls in the closure (its block is where, in f, they happen)."""
+    out = [c for c in f.calls() if c.name() in names and not f.blocks[c.bb].get('cleanup')]
+    inner = [g for g in closures_of(prog, f) if any(c.name() in names and not g.blocks[c.bb].get('cleanup') for c in g.calls())]
+    if inner:
+        for c in f.calls():
+            if f.blocks[c.bb].get('cleanup') or c in out:
+                continue
+            if any(vexpr(f, a).startswith('closure(') for a in c.args):
+                out.append(c)
+    return out
+
+
 # --------------------------------------------------------------------------- effects through helpers
 def effect_blocks(prog, f, direct, depth=3, _stack=()):
     """Blocks of f that perform an effect. `direct(g)` lists the blocks of a function g that perform it themselves (for instance: build a
